@@ -129,7 +129,28 @@ func c07SlotStates(c *Check, a *Anchors) {
 			}
 			n++
 			st := fl.At[call]
-			c.Decide(st.Has("called:release"), "slot-states", e.label+"-after-handback@"+fnDisplay(e.fb), call.Pos(), "slot handed back before blocking",
+			handed, how := st.Has("called:release"), "slot handed back before blocking"
+			if !handed {
+				// the blocking event sits in a helper of its own (runTaskCommand): the hand-back is looked for there
+				if fn, isFn := callee(e.fb.Info(), call).(*types.Func); isFn && fn != a.RunTask.Obj {
+					if h := c.P.DeclOf(fn); h != nil && h.Body != nil && h != e.fb {
+						c.Fn(h)
+						hf := NewFlow(c.P, h, a.labelRun(h.Info()))
+						hf.Run()
+						nIn, okIn := 0, true
+						for hc, hl := range hf.Labels {
+							if hl == e.label {
+								nIn++
+								okIn = okIn && hf.At[hc].Has("called:release")
+							}
+						}
+						if nIn > 0 && okIn {
+							handed, how = true, "slot handed back before blocking, inside "+fnDisplay(h)
+						}
+					}
+				}
+			}
+			c.Decide(handed, "slot-states", e.label+"-after-handback@"+fnDisplay(e.fb), call.Pos(), how,
 				"the "+e.desc+" blocks while the caller still holds its concurrency slot: with --concurrency N a chain of N waiting tasks deadlocks; must-facts: "+st.String())
 		}
 		if n == 0 {
@@ -230,6 +251,28 @@ func c07SemCapacity(c *Check, a *Anchors) {
 			if ifs, isIf := fb.Body.List[0].(*ast.IfStmt); isIf {
 				if a.isSemNilTest(info, ifs.Cond, 1) {
 					nilGuard = len(returnsOf(ifs.Body)) == 1
+				}
+				// inverted: `if sem != nil { take; return handBack }; return noop` — every semaphore operation of the function
+				// sits in the non-nil branch, which returns
+				if be, isBin := ast.Unparen(ifs.Cond).(*ast.BinaryExpr); isBin && be.Op == token.NEQ && ifs.Else == nil &&
+					((a.isSem(info, be.X) && isNilLit(info, be.Y)) || (a.isSem(info, be.Y) && isNilLit(info, be.X))) {
+					endsInReturn := false
+					if k := len(ifs.Body.List); k > 0 {
+						_, endsInReturn = ifs.Body.List[k-1].(*ast.ReturnStmt)
+					}
+					rest := &ast.BlockStmt{List: fb.Body.List[1:]}
+					restOps := a.semOps(rest, info, 2)
+					restReal := 0
+					for _, st := range rest.List {
+						if r, isRet := st.(*ast.ReturnStmt); isRet {
+							for _, res := range r.Results {
+								if ops := a.funcValueOps(info, res); len(ops) > 0 {
+									restReal++
+								}
+							}
+						}
+					}
+					nilGuard = endsInReturn && len(restOps) == 0 && restReal == 0
 				}
 			}
 		}
